@@ -105,12 +105,13 @@ print(cfg%d_%d.name, GShared%d, GShared%d)
 }
 
 type c10Phase struct {
-	Files map[string]string // disk content during the phase (constant)
-	Msgs  []c10Msg
+	NoEdits bool              // no didChange among the mutators: the wall-clock highlight throttle (3 s after an edit) never arms
+	Files   map[string]string // disk content during the phase (constant)
+	Msgs    []c10Msg
 }
 
-func c10GenPhase(r *Rng, nmsg int) c10Phase {
-	ph := c10Phase{Files: map[string]string{}}
+func c10GenPhase(r *Rng, nmsg int, noEdits bool) c10Phase {
+	ph := c10Phase{Files: map[string]string{}, NoEdits: noEdits}
 	nfiles := 3
 	rels := []string{}
 	for i := 0; i < nfiles; i++ {
@@ -152,6 +153,8 @@ func c10GenPhase(r *Rng, nmsg int) c10Phase {
 		if r.Chance(1, 4) {
 			// mutator
 			switch k := r.Intn(12); {
+			case k < 6 && noEdits:
+				continue
 			case k < 6:
 				if !open[rel] {
 					continue
@@ -508,7 +511,11 @@ func runC10(c *Ctx) {
 	overlap := map[string]int{}
 	parallel(nPhases, 6, func(pi int) {
 		r := root.Fork(uint64(pi))
-		ph := c10GenPhase(r, nmsg)
+		// every third phase has no edits: saves, opens/closes, watched-file events and settings changes only
+		ph := c10GenPhase(r, nmsg, pi%3 == 2)
+		if ph.NoEdits {
+			c.Count("phases_without_edits", 1)
+		}
 		tag := fmt.Sprintf("c10p%d", pi)
 		ref, err := c10Reference(c, ph, tag)
 		if err == ErrBlocked {
@@ -590,7 +597,7 @@ func runC10(c *Ctx) {
 						return true, k // unstable reference entry: nothing asserted
 					}
 					out := output.(string)
-					if strings.HasPrefix(in.Q, "textDocument/documentHighlight|") && (out == "null" || out == "[]") {
+					if !ph.NoEdits && strings.HasPrefix(in.Q, "textDocument/documentHighlight|") && (out == "null" || out == "[]") {
 						return true, k // highlight is throttled by wall clock for 3 s after an edit
 					}
 					return out == exp, k
@@ -645,7 +652,7 @@ func runC10(c *Ctx) {
 						continue
 					}
 					out := wsRootRe.ReplaceAllString(obs[i].Out, "$$ROOT")
-					if strings.HasPrefix(m.QKey, "textDocument/documentHighlight|") && (out == "null" || out == "[]") {
+					if !ph.NoEdits && strings.HasPrefix(m.QKey, "textDocument/documentHighlight|") && (out == "null" || out == "[]") {
 						continue
 					}
 					match := false
